@@ -1,6 +1,6 @@
 SPECIFICATION Spec
 CONSTANTS
-  Bug = "none"
+  Bug = "demand_from_closing"
   Params <- QuickGrid
 INVARIANT Closed
 INVARIANT IndexConsistent
